@@ -144,6 +144,10 @@ class FilePathResolver(Resolver):
         path = os.path.join(self.parent, name.strip())
         if not os.path.exists(path):
             path = os.path.join(self.parent, os.path.split(name)[-1])
+        if os.path.exists(path) and not os.path.isfile(path):
+            # an asset is a regular file: reading a device or a
+            # pipe named by a model may block or never reach an end
+            raise ValueError(f"asset `{name}` is not a regular file!")
         with open(path, "rb") as f:
             data = f.read()
         return data
